@@ -965,9 +965,12 @@ def run_c15(rep, tier, seed):
     # the retry loop itself (AcceptBackoff.accept, theorems c15_backoff_survives / c15_backoff_gives_up): the harness's server
     # has min_backoff_ms = 10, max_backoff_ms = 100; the model says how a burst of k failing accept(2) calls ends
     # (k <= 4: the connection is accepted; k = 5: the fifth failure finds the back-off at 160 > 100 and the listener ends)
-    for k in ([4, 5] if tier == "quick" else [1, 2, 3, 4, 5]):
-        m = run_driver(["cl.init 2", f"cl.backoff 10 100 {k}"])[1].split(" ")
-        script = ["srv.start max=2 mfs=1000000", f"io.failaccepts {k} 24", "c.open t", f"c.send t {GET_PROBE}", "c.read t 1 3000", "srv.wait 400", "io.failedaccepts", "srv.stop"]
+    # other configurations: (5, 20): 5, 10, 20 survive, the fourth failure finds 40 > 20; (0, 5): a minimum of zero never grows,
+    # the listener never gives up (c15_backoff_zero_min) — 40 failures in a row are survived
+    for (bmin, bmax, k) in ([(10, 100, 4), (10, 100, 5), (5, 20, 3), (5, 20, 4), (0, 5, 40)] if tier == "quick" else
+                            [(10, 100, k) for k in (1, 2, 3, 4, 5)] + [(5, 20, 3), (5, 20, 4), (0, 5, 40), (1, 1, 1), (1, 1, 2), (3, 2, 1), (200, 100, 1)]):
+        m = run_driver(["cl.init 2", f"cl.backoff {bmin} {bmax} {k}"])[1].split(" ")
+        script = [f"srv.start max=2 mfs=1000000 bmin={bmin} bmax={bmax}", f"io.failaccepts {k} 24", "c.open t", f"c.send t {GET_PROBE}", "c.read t 1 3000", "srv.wait 400", "io.failedaccepts", "srv.stop"]
         exp = {4: "N", 5: "timeout"} if m[0] == "accepted" else {5: "returned"}
         exp[6] = str(int(m[1]) - 1 if m[0] == "accepted" else int(m[1]))
         shutil.rmtree(root, ignore_errors=True)
@@ -978,14 +981,14 @@ def run_c15(rep, tier, seed):
             continue
         rep.cov["evaluations"] += len(script)
         rep.count("accept_backoff_scenarios")
-        rep.nontrivial(["c15backoff", k])
+        rep.nontrivial(["c15backoff", bmin, bmax, k])
         for li in sorted(exp):
             if ans[li] != exp[li]:
                 if m[0] == "accepted":
-                    rep.violation("oracle", dict(what=f"{k} accept(2) calls fail in a row (back-off 10 ms doubling, maximum 100 ms): the model of Listener::accept says the connection is accepted after the retries and the listener lives on; step `{script[li][:60]}` observed `{ans[li]}`",
+                    rep.violation("oracle", dict(what=f"{k} accept(2) calls fail in a row (back-off {bmin} ms doubling, maximum {bmax} ms): the model of Listener::accept says the connection is accepted after the retries and the listener lives on; step `{script[li][:60]}` observed `{ans[li]}`",
                                                  script=script, answers=ans, failing_line=li, expected=exp[li], observed=ans[li], model=m))
                 else:
-                    rep.violation("correspondence", dict(what=f"{k} accept(2) calls fail in a row: the model of Listener::accept says `{' '.join(m)}` (how it ends, calls, ms slept); step `{script[li][:60]}` observed `{ans[li]}`",
+                    rep.violation("correspondence", dict(what=f"{k} accept(2) calls fail in a row (back-off {bmin} ms doubling, maximum {bmax} ms): the model of Listener::accept says `{' '.join(m)}` (how it ends, calls, ms slept); step `{script[li][:60]}` observed `{ans[li]}`",
                                                          script=script, answers=ans, failing_line=li, expected=exp[li], observed=ans[li], model=m))
                 break
     shutil.rmtree(root, ignore_errors=True)
